@@ -1231,6 +1231,24 @@ class Emitter:
     dispatch_needed = {}
 
     new_helpers = {}
+    WORDBUF_RX = re.compile(r'St6vectorIhSaIhEE|_Vector_baseIhSaIhEE|allocatorIhE|^_ZN4sconC')
+    def wordbuf_helper(self):
+        """raw state areas (std::vector<uint8_t>) are allocated as arrays of 64-bit words: a pointer
+        stored at an aligned offset is then ONE element, survives path merges as a single
+        if-then-else and keeps its points-to set (bytewise storage splits it into 8 expressions)"""
+        if 'wordbuf' not in self.new_helpers:
+            lines = ['static uint8_t *vp_new_wordbuf(uint64_t nbytes) {',
+                     '  uint64_t cnt = (nbytes + 7) / 8;',
+                     '  void **p;',
+                     '#ifdef __CPROVER__']
+            ladder = [1, 2, 3, 4, 6, 8, 12, 16, 24, 32, 48, 64, 96, 128, 256]
+            for i, k in enumerate(ladder):
+                lines.append('  %sif (cnt <= %d) p = (void**)malloc(sizeof(void*) * %d);' % ('else ' if i else '', k, k))
+            lines.append('  else { VP_ASSERT(0, "state area larger than 2048 bytes (outside the modelled sizes)"); VP_ASSUME(0); p = 0; }')
+            lines += ['#else', '  p = (void**)malloc(nbytes ? nbytes : 1);', '#endif', '  VP_ASSUME(p != 0);', '  return (uint8_t*)p;', '}']
+            self.new_helpers['wordbuf'] = ('vp_new_wordbuf', '\n'.join(lines))
+        return 'vp_new_wordbuf'
+
     def new_helper(self, et):
         """typed operator new: CBMC gives the object the element type when the malloc argument
         is literally sizeof(T) * count"""
@@ -1349,6 +1367,9 @@ class FuncEmitter:
         self.zext64 = {}        # local i128 defined as zext of an i64 value -> C expr of that value
         self.p2i = {}           # local iN defined by ptrtoint -> C expr of the pointer
         self.icmp_here = {}
+        self.entry_nn = []
+        self.nonnull_block = set()
+        self.nonnull = set()    # locals known non-null (allocas, GEP results, nonnull params, checked)
         self.vt_of = {}         # local holding a loaded vptr -> static class name of the object
         self.slot_of = {}       # local = &vptr[idx] -> (class, idx)
         self.fp_of = {}         # local holding a function pointer loaded from a vtable slot -> (class, idx)
@@ -1415,6 +1436,9 @@ class FuncEmitter:
         # parameter types
         for (t, n, a) in f.params:
             self.types[n] = t
+            if 'nonnull' in a or 'sret' in a or 'byval' in a:
+                self.nonnull.add(n)
+                self.entry_nn.append(n)
         # phi collection: for each block, list of (dest, type, [(val, pred)])
         phis = {}
         for bn, ins in parsed:
@@ -1444,6 +1468,9 @@ class FuncEmitter:
             ps = ['void']
         hdr = '%s %s(%s) {' % (E.ctype(f.ret), E.fname(f.name), ', '.join(ps))
         out = [hdr]
+        # the caller's non-null contract (references, this, sret) as an explicit test: filters the
+        # parameter's value set inside the callee
+        out += ['  VP_NONNULL(%s);' % self.lname(n) for n in self.entry_nn]
         out += pre
         out += self.decls
         out += ['  ' + c for c in self.code]
@@ -1738,6 +1765,12 @@ class FuncEmitter:
                 if 'nuw' in fl:
                     c.append('VP_UB(!VP_U%s_OVF(%d, %s, %s), "UB: unsigned overflow in %s nuw");' % (op.upper(), w, a, b, op))
             pt = E.uprom(w)
+            if op == 'xor' and w == 1 and I['a'][0] == 'local' and I['b'] == ('int', 1) \
+                    and I['a'][1] in self.icmp_here and self.icmp_here[I['a'][1]][0] == self.cur_block:
+                NEG = {'eq': 'ne', 'ne': 'eq', 'ult': 'uge', 'uge': 'ult', 'ugt': 'ule', 'ule': 'ugt',
+                       'slt': 'sge', 'sge': 'slt', 'sgt': 'sle', 'sle': 'sgt'}
+                pr, tt, aa, bb = self.icmp_here[I['a'][1]][2]
+                self.icmp_here[d] = (self.cur_block, E.icmp_expr(NEG[pr], tt, self.val(tt, aa), self.val(tt, bb)), (NEG[pr], tt, aa, bb))
             if op == 'sub' and w == 64 and I['a'][0] == 'local' and I['b'][0] == 'local' \
                     and I['a'][1] in self.p2i and I['b'][1] in self.p2i:
                 # pointer difference: keep it a pointer operation so that symbolic execution folds it
@@ -1781,7 +1814,7 @@ class FuncEmitter:
             c.append('%s = %s;' % (D, ex))
             # remembered so that a branch in the same block can test the comparison itself
             # (CBMC filters pointer value sets on `if (p != NULL)' but not on a boolean temporary)
-            self.icmp_here[d] = (self.cur_block, ex)
+            self.icmp_here[d] = (self.cur_block, ex, (I['pred'], I['t'], I['a'], I['b']))
         elif op in ('zext', 'trunc'):
             w2 = E.resolve(I['rtype'])[1]
             c.append('%s = %s;' % (D, E.mask(w2, self.val(I['t'], I['a']))))
@@ -1797,6 +1830,10 @@ class FuncEmitter:
                 c.append('%s = (%s)%s;' % (D, E.ctype(I['rtype']), self.val(I['t'], I['a'])))
                 if I['a'][0] == 'local':
                     self.bitcast_src[d] = (I['t'], I['a'][1])
+                    if I['a'][1] in self.nonnull:
+                        self.nonnull.add(d)
+                else:
+                    self.nonnull.add(d)
             elif st[0] == 'int' and dt[0] == 'int':
                 c.append('%s = %s;' % (D, self.val(I['t'], I['a'])))
             else:
@@ -1815,6 +1852,7 @@ class FuncEmitter:
         elif op == 'alloca':
             t = I['t']
             self.types[d] = PTR(t)
+            self.nonnull.add(d)
             st = '%s_mem' % D
             if I['cnt'] is None or (I['cnt'][0] == 'int'):
                 n = 1 if I['cnt'] is None else I['cnt'][1]
@@ -1827,6 +1865,7 @@ class FuncEmitter:
             else:
                 raise Unsupported("dynamic alloca")
         elif op == 'load':
+            self.nn(I['a'])
             c.append('%s = *%s;' % (D, self.val(I['pt'], I['a'])))
             a = I['a']
             if a[0] == 'local':
@@ -1845,8 +1884,15 @@ class FuncEmitter:
                 elif a[1] in self.vt_of and lt[0] == 'ptr' and E.resolve(lt[1])[0] == 'func':
                     self.fp_of[d] = (self.vt_of[a[1]], 0)
         elif op == 'store':
+            self.nn(I['b'])
             c.append('*%s = %s;' % (self.val(I['pt'], I['b']), self.val(I['t'], I['a'])))
         elif op == 'getelementptr':
+            nonzero = any(not (iv[0] == 'int' and iv[1] == 0) for it, iv in I['idx'])
+            if nonzero or len(I['idx']) > 1:
+                self.nn(I['base'])
+                self.nonnull.add(d)
+            elif I['base'][0] == 'local' and I['base'][1] in self.nonnull:
+                self.nonnull.add(d)
             base = self.val(I['pt'], I['base'])
             idxs = [(it, self.val(it, iv), iv) for it, iv in I['idx']]
             e, rt = E.gep_expr(I['bt'], base, idxs)
@@ -1933,6 +1979,24 @@ class FuncEmitter:
         else:
             raise Unsupported("emit " + op)
 
+    def nn(self, v):
+        """explicit null test before a dereference through SSA pointer v: makes the UB an assertion
+        and lets CBMC drop NULL (and with it the `invalid object') from v's value set on the
+        continuing path, which keeps loop bounds and vptrs concrete after path merges"""
+        if v[0] != 'local' or v[1] in self.nonnull:
+            return
+        # the symbol it was cast from first, then the symbol itself
+        n = v[1]
+        chain = [n]
+        while n in self.bitcast_src:
+            n = self.bitcast_src[n][1]
+            if n in self.nonnull:
+                break
+            chain.append(n)
+        for x in reversed(chain):
+            self.code.append('VP_NONNULL(%s);' % self.lname(x))
+            self.nonnull_block.add((self.cur_block, x))
+
     def ret_zero(self):
         if self.f.ret[0] == 'void':
             return 'return;'
@@ -1971,11 +2035,22 @@ class FuncEmitter:
                 if I['op'] == 'invoke':
                     c.append(self.goto(I['normal']))
                 return
+            if name in ('_Znwm', '_Znam') and d is not None and E.WORDBUF_RX.search(self.f.name) \
+                    and (d not in self.new_type or E.resolve(self.new_type[d]) == INT(8)):
+                c.append('%s = %s(%s);' % (D, E.wordbuf_helper(), self.val(args[0][0], args[0][1])))
+                if I['op'] == 'invoke':
+                    c.append(self.goto(I['normal']))
+                return
             if name in ('_Znwm', '_Znam') and d in self.new_type:
                 et = self.new_type[d]
                 sz = E.sizeof(et)
                 a0 = args[0]
                 ok = sz > 0 and (a0[1][0] != 'int' or a0[1][1] % sz == 0)
+                if ok and E.resolve(et) == INT(8) and E.WORDBUF_RX.search(self.f.name):
+                    c.append('%s = %s(%s);' % (D, E.wordbuf_helper(), self.val(a0[0], a0[1])))
+                    if I['op'] == 'invoke':
+                        c.append(self.goto(I['normal']))
+                    return
                 if ok:
                     helper = E.new_helper(et)
                     c.append('%s = (uint8_t*)%s(%s);' % (D, helper, self.val(a0[0], a0[1])))
